@@ -30,15 +30,24 @@ Cmds(k) == <<
   [name |-> "GetSensorReading", netfn |-> 4, num |-> 45, group |-> <<>>, reqT |-> GetSensorReadingReq, rspN |-> "GetSensorReadingRsp"],
   [name |-> "GetChannelCipherSuites", netfn |-> 6, num |-> 84, group |-> <<>>, reqT |-> GetChannelCipherSuitesReq, rspN |-> ""],
   [name |-> "GetDCMISensorInfo", netfn |-> 44, num |-> 7, group |-> <<220>>, reqT |-> GetDCMISensorInfoReq, rspN |-> ""],
-  [name |-> "GetPowerReading", netfn |-> 44, num |-> 2, group |-> <<220>>, reqT |-> NoT, rspN |-> "GetPowerReadingRsp"] >>
+  [name |-> "GetPowerReading", netfn |-> 44, num |-> 2, group |-> <<220>>, reqT |-> NoT, rspN |-> "GetPowerReadingRsp"],
+  [name |-> "DCMICapsSupportedCapabilities", netfn |-> 44, num |-> 1, group |-> <<220>>, reqT |-> NoT, rspN |-> ""],
+  [name |-> "DCMICapsMandatoryPlatformAttrs", netfn |-> 44, num |-> 1, group |-> <<220>>, reqT |-> NoT, rspN |-> ""],
+  [name |-> "DCMICapsOptionalPlatformAttrs", netfn |-> 44, num |-> 1, group |-> <<220>>, reqT |-> NoT, rspN |-> ""],
+  [name |-> "DCMICapsManageabilityAccessAttrs", netfn |-> 44, num |-> 1, group |-> <<220>>, reqT |-> NoT, rspN |-> ""],
+  [name |-> "DCMICapsEnhancedSystemPowerStatisticsAttrs", netfn |-> 44, num |-> 1, group |-> <<220>>, reqT |-> NoT, rspN |-> ""] >>
+\* DCMI 6.1 Get DCMI Capabilities Info: request = parameter selector 1..5
+CapsParam(n) == CASE n = "DCMICapsSupportedCapabilities" -> 1 [] n = "DCMICapsMandatoryPlatformAttrs" -> 2 [] n = "DCMICapsOptionalPlatformAttrs" -> 3
+                  [] n = "DCMICapsManageabilityAccessAttrs" -> 4 [] n = "DCMICapsEnhancedSystemPowerStatisticsAttrs" -> 5 [] OTHER -> 0
 ReqOk(c, r) == /\ (c.name = "SetSessionPrivilegeLevel" => r["PrivilegeLevel"] # 1)
                /\ (c.name = "CloseSession" => r["ID"] # <<0, 0, 0, 0>>)
                /\ (c.name = "GetDCMISensorInfo" => r["Instance"] = 0)
 ReqRecs(c, k) == IF c.reqT = NoT THEN {<<>>} ELSE {r \in {Base(c.reqT, k), Base(c.reqT, k + 1), Base(c.reqT, k + 2)} : ReqOk(c, r)}
-ReqBytes(c, r) == IF c.name = "GetPowerReading" THEN <<1, 0, 0>> ELSE IF c.reqT = NoT THEN <<>> ELSE Encode(c.reqT, r)
+ReqBytes(c, r) == IF c.name = "GetPowerReading" THEN <<1, 0, 0>> ELSE IF CapsParam(c.name) > 0 THEN <<CapsParam(c.name)>> ELSE IF c.reqT = NoT THEN <<>> ELSE Encode(c.reqT, r)
 RspRec(c, k) == IF c.rspN = "" THEN <<>> ELSE LET T == Tables[c.rspN]  b == Base(T, k) IN
                 IF c.rspN = "GetPowerReadingRsp" THEN [b EXCEPT !["periodMs"] = <<232, 3, 0, 0>>] ELSE b
-RspBytes(c, k) == IF c.name = "GetChannelCipherSuites" THEN <<14, 192, 3, 1, 65, 129>>
+RspBytes(c, k) == IF CapsParam(c.name) > 0 THEN <<1, 5, 2, 1, 2, 3, 4, 5, 6>>
+                  ELSE IF c.name = "GetChannelCipherSuites" THEN <<14, 192, 3, 1, 65, 129>>
                   ELSE IF c.name = "GetDCMISensorInfo" THEN <<2, 1, 7, 0>>
                   ELSE IF c.rspN = "" THEN <<>> ELSE Encode(Tables[c.rspN], RspRec(c, k))
 Lun(c, k) == IF c.name = "GetSensorReading" THEN k % 4 ELSE 0
@@ -54,8 +63,8 @@ CallV(c, r, k, tg, vprop) ==
                  @@ (IF c.rspN = "" THEN [outcome |-> "noerror"]
                      ELSE [outcome |-> "agrees", vprop |-> vprop, value |-> Expected(c.rspN, Tables[c.rspN], RspRec(c, k))])]
 MsgBytes(c, k) == MsgRspBytes(129, c.netfn + 1, 0, 1, Lun(c, k), c.num, 0, c.group \o RspBytes(c, k))
-ReactIn(c, k, j) == [React0 EXCEPT !.datagrams = << Dg(SessPacket(S, LE32s(j), B(MsgBytes(c, k)), [i \in 1..16 |-> (i + j) % 256]), [kind |-> "rsp"]) >>]
-ReactOut(c, k) == [React0 EXCEPT !.datagrams = << Dg(NullWrapper(0, B(MsgBytes(c, k))), [kind |-> "rsp"]) >>]
+ReactIn(c, k, j) == [React0 EXCEPT !.datagrams = << Dg(SessPacket(S, LE32s(j), B(MsgBytes(c, k)), [i \in 1..16 |-> (i + j) % 256]), [kind |-> "rsp", valid |-> TRUE, code |-> 0]) >>]
+ReactOut(c, k) == [React0 EXCEPT !.datagrams = << Dg(NullWrapper(0, B(MsgBytes(c, k))), [kind |-> "rsp", valid |-> TRUE, code |-> 0]) >>]
 
 RECURSIVE StepsFor(_, _, _, _, _)
 StepsFor(cs, k, tg, j, vprop) ==
